@@ -723,7 +723,18 @@ impl<'a> Interp<'a> {
                     if via_exception {
                         self.event("finally_on_exception_path");
                     }
+                    // the block may raise and handle exceptions of its own: the pending one keeps its trace
+                    let saved_trace = if via_exception { Some(self.last_throw.clone()) } else { None };
                     let fr = self.exec_block(fb, env, module);
+                    if let (Some(mut tr), Ok(())) = (saved_trace, &fr) {
+                        // calls that the exception has left are no longer active when it is reported:
+                        // the trace keeps the entries of this frame and its callers
+                        let keep = self.frames.len();
+                        if tr.len() > keep {
+                            tr.drain(..tr.len() - keep);
+                        }
+                        self.last_throw = tr;
+                    }
                     if let Err(Ctl::Throw(_)) = &fr {
                         // an exception raised by the finally block supersedes whatever was pending
                         return fr;
